@@ -794,7 +794,9 @@ class H2Connection:
         if priority_present and not self.config.client_side:
             raise RFC1122Error("Servers SHOULD NOT prioritize streams.")
 
-        self.state_machine.process_input(ConnectionInputs.SEND_HEADERS)
+        # The stream ID is checked before the connection state machine sees
+        # the HEADERS: a call refused for its stream ID must not count as
+        # having sent a request (which is what makes a connection a client).
         opens_stream = stream_id not in self.streams
         highest_outbound_stream_id = self.highest_outbound_stream_id
         stream = self._get_or_create_stream(
@@ -802,6 +804,8 @@ class H2Connection:
         )
 
         try:
+            self.state_machine.process_input(ConnectionInputs.SEND_HEADERS)
+
             if priority_present:
                 # This only validates the priority fields.
                 _add_frame_priority(
